@@ -152,4 +152,47 @@ theorem demo_known : KnownSt demoE demoTT 3 1 t08 28800 28800 (1 / 1000) demoL (
 theorem demo_A : (28800 : Rat) = ((0 : Int) : Rat) * secPerDay + todS demoP t08 := by
   rw [tod_demo]; simp [t08]
 
+/-! a timetable of exactly the 24 full hours, times of day = `Fin 24` -/
+
+def hoursP : MtPrims Unit (Fin 24) Unit Unit where
+  dtnow w := ((), w)
+  timeOf _ := 0
+  set24 := List.finRange 24
+  alarmKeys _ := []
+  sortedUnion a _ := a
+  bisectLeft _ _ := 0
+  allClients _ := []
+  hasAlarm _ _ := false
+  clientsAt _ _ := []
+  recalc _ _ w := w
+  hour t := (t.val : Rat)
+  minute _ := 0
+  second _ := 0
+  microsecond _ := 0
+  blockingSleep _ w := w
+
+theorem tod_hours (t : Fin 24) : todS hoursP t = 3600 * (t.val : Rat) := by
+  simp [todS, hoursP, secPerHour, secPerMin]
+
+theorem hours_range (t : Fin 24) : 0 ≤ todS hoursP t ∧ todS hoursP t < secPerDay := by
+  rw [tod_hours]
+  have h : (t.val : Rat) < 24 := by exact_mod_cast t.isLt
+  have h0 : (0 : Rat) ≤ t.val := by positivity
+  unfold secPerDay
+  constructor <;> linarith
+
+theorem hours_get (i : Nat) (x : Fin 24) (h : (List.finRange 24)[i]? = some x) : x.val = i := by
+  obtain ⟨hi, hx⟩ := List.getElem?_eq_some_iff.mp h
+  rw [← hx]; simp
+
+theorem hours_sorted : SortedTT hoursP (List.finRange 24) := by
+  intro i j x y hx hy hij
+  rw [tod_hours, tod_hours, hours_get i x hx, hours_get j y hy]
+  have : (i : Rat) < j := by exact_mod_cast hij
+  linarith
+
+theorem hours_hourly : Hourly hoursP (List.finRange 24) := by
+  intro h h24
+  exact ⟨⟨h, h24⟩, List.mem_finRange _, by rw [tod_hours]⟩
+
 end Edzed.Cron.Demo
